@@ -15,6 +15,7 @@ type c20Out struct {
 	duplicates uint64
 	tracer     bool
 	traceLines int
+	traceMin   Severity // lowest level among the attached trace lines (0: none)
 }
 
 var c20Got []c20Out
@@ -34,6 +35,11 @@ func c20Start() {
 		o := c20Out{msg: ll.msg, level: ll.level, duplicates: duplicates, tracer: ll.tracer != nil}
 		if ll.tracer != nil {
 			o.traceLines = len(ll.tracer.logs)
+			for _, tl := range ll.tracer.logs {
+				if o.traceMin == 0 || tl.level < o.traceMin {
+					o.traceMin = tl.level
+				}
+			}
 		}
 		c20Got = append(c20Got, o)
 	})
@@ -294,4 +300,44 @@ func VerifC20_TracerSubmit() {
 		rt.Assert(o.traceLines == n-1, "tracer/remaining-lines-attached")
 	}
 	rt.Reach("tracer-end")
+}
+
+// ---- O6: context tracers obey the level in force for the calling package:
+// below it, no tracer is handed out and nothing below the level is emitted ----
+
+func VerifC20_TracerLevels() {
+	rt.SchedYieldOnly(true)
+	c20Start()
+	global := Severity(1 + rt.Choice("global", 6))
+	SetLogLevel(global)
+	inForce := global
+	switch rt.Choice("pkgmode", 3) {
+	case 1:
+		lv := Severity(1 + rt.Choice("pkglevel", 6))
+		SetPkgLevels(map[string]Severity{"log": lv})
+		inForce = lv
+	case 2:
+		SetPkgLevels(map[string]Severity{"other": Severity(1 + rt.Choice("pkglevel", 6))})
+	}
+	_, tracer := AddTracer(context.Background())
+	rt.Assert((tracer != nil) == (inForce == TraceLevel), "tracerlevels/tracer-handed-out-iff-trace-level-in-force")
+	tracer.Trace("t")
+	tracer.Warning("w")
+	tracer.Submit()
+	rt.Quiesce(time.Second)
+	for _, o := range c20Got {
+		rt.Assert(o.level >= inForce, "tracerlevels/no-line-below-the-level-in-force")
+		if o.traceMin != 0 {
+			rt.Assert(o.traceMin >= inForce, "tracerlevels/no-trace-line-below-the-level-in-force")
+		}
+	}
+	// the warning is at or above every level up to Warning
+	if inForce <= WarningLevel {
+		found := false
+		for _, o := range c20Got {
+			found = found || o.msg == "w"
+		}
+		rt.Assert(found, "tracerlevels/enabled-line-emitted")
+	}
+	rt.Reach("tracerlevels-end")
 }
